@@ -17,6 +17,7 @@ func datumC12() map[string]interface{} {
 		"m":  map[string]interface{}{"a": vInt8(), "b": "y"},
 		"ts": []string{"p", "q"},
 		"w":  wrapC12{V: map[string]interface{}{"k": vInt8()}},
+		"d3": map[string]interface{}{"b": map[string]interface{}{"c": []interface{}{vInt8()}, "m": map[string]interface{}{"k": vInt8()}}},
 	}
 }
 
@@ -25,6 +26,8 @@ var exprsC12 = []string{
 	`m.a != 1`, `m.zz == 1`, `l is not empty`, `any l as x { x == 1 }`, `all m as k, v { k != "z" and v != 1 }`,
 	`any l as i, x { i == 0 or x == "x" }`, `n == 1 and s matches "a" or not (f == 2)`, `zz == 1`, `s matches "("`, `all ts as t { t matches "^[pq]$" }`,
 	`w.V.k == 1`, `"/m/a" == 1`, `f == 0.1`, `f != "1e300"`, `"1" in l`,
+	// quantified selectors of three parts: the parser leaves spare capacity in their Path
+	`any d3.b.c as x { x == 1 }`, `all d3.b.m as k, v { v != 1 }`, `any "/d3/b/c" as i, x { x == 1 }`,
 }
 
 func optsC12(c int) []Option {
